@@ -475,6 +475,68 @@ class Gen:
                     s += ' OFFSET %d' % rng.randint(0, 2)
         return s, ordered, ([] if '*' in s.split(' FROM ')[0] else alias)
 
+    def nested_same_table(self):
+        """a sub-query (IN / EXISTS / scalar) whose FROM lists, un-aliased, a table the enclosing query also uses
+        un-aliased -- as comma join or explicit join, correlated or not.  In SQL the inner occurrence shadows the outer."""
+        rng = self.rng
+        outer = rng.choice((['t'], ['u'], ['t', 'u'], ['u', 't']))
+        ocols = ['%s.%s' % (tb, c) for tb in outer for c in SCHEMA[tb]]
+        if len(outer) == 1:
+            ofrom = outer[0]
+        elif rng.random() < 0.5:
+            self.f('join:implicit')
+            ofrom = ', '.join(outer)
+        else:
+            sp = rng.choice(('JOIN', 'LEFT JOIN', 'INNER JOIN'))
+            self.f('join:' + sp)
+            ofrom = '%s %s %s ON %s.a = %s.a' % (outer[0], sp, outer[1], outer[0], outer[1])
+        shared = rng.choice(outer)
+        other = 'u' if shared == 't' else 't'
+        shape = rng.choice(('comma', 'comma-rev', 'join', 'single', 'comma-self'))
+        self.f('nested-same-table:' + shape)
+        if shape == 'comma':
+            ifrom, itabs = '%s, %s' % (other, shared), [other, shared]
+        elif shape == 'comma-rev':
+            ifrom, itabs = '%s, %s' % (shared, other), [shared, other]
+        elif shape == 'join':
+            sp = rng.choice(('JOIN', 'LEFT JOIN'))
+            ifrom, itabs = '%s %s %s ON %s.a = %s.a' % (shared, sp, other, shared, other), [shared, other]
+        elif shape == 'single':
+            ifrom, itabs = shared, [shared]
+        else:
+            ifrom, itabs = '%s, %s AS z' % (shared, shared), [shared]
+        icols = ['%s.%s' % (tb, c) for tb in itabs for c in SCHEMA[tb]]
+        conds = []
+        if len(itabs) == 2 and shape != 'join' and rng.random() < 0.7:
+            conds.append('%s = %s' % (rng.choice([c for c in icols if c.startswith(itabs[0])]),
+                                     rng.choice([c for c in icols if c.startswith(itabs[1])])))
+        only_outer = [c for c in ocols if c.split('.')[0] not in itabs]
+        if only_outer and rng.random() < 0.5:
+            self.f('nested-correlated')
+            conds.append('%s %s %s' % (rng.choice(icols), rng.choice(('=', '<', '<>')), rng.choice(only_outer)))
+        if rng.random() < 0.4 or not conds:
+            conds.append(self.expr(icols, 1, True, sub=False))
+        iwhere = ' WHERE ' + ' AND '.join(conds)
+        kind = rng.choice(('IN', 'NOT IN', 'EXISTS', 'NOT EXISTS', 'scalar', 'scalar-target'))
+        self.f('subq:' + kind)
+        agg = '%s(%s)' % (rng.choice(('max', 'min', 'count', 'sum')), rng.choice(icols))
+        targets = ', '.join(rng.sample(ocols, min(len(ocols), rng.randint(1, 2))))
+        if kind in ('IN', 'NOT IN'):
+            pred = '%s %s (SELECT %s FROM %s%s)' % (rng.choice(ocols), kind, rng.choice(icols), ifrom, iwhere)
+        elif kind in ('EXISTS', 'NOT EXISTS'):
+            pred = '%s (SELECT %s FROM %s%s)' % (kind, rng.choice(icols), ifrom, iwhere)
+        elif kind == 'scalar':
+            pred = '%s %s (SELECT %s FROM %s%s)' % (rng.choice(ocols), rng.choice(('=', '<', '>=')), agg, ifrom, iwhere)
+        else:
+            targets += ', (SELECT %s FROM %s%s)' % (agg, ifrom, iwhere)
+            pred = None
+        s = 'SELECT %s FROM %s' % (targets, ofrom)
+        if pred:
+            if rng.random() < 0.3:
+                pred = '%s AND %s' % (pred, self.expr(ocols, 1, True, sub=False))
+            s += ' WHERE ' + pred
+        return s, False, []
+
     def setop(self):
         rng = self.rng
         op = rng.choice(('UNION', 'UNION ALL', 'INTERSECT', 'EXCEPT'))
@@ -541,8 +603,11 @@ class Gen:
         self.strs = set()
         self.order_keys = None
         r = self.rng.random()
-        if r < 0.66:
+        if r < 0.57:
             text, ordered, alias = self.select()
+            kind = 'select'
+        elif r < 0.66:
+            text, ordered, alias = self.nested_same_table()
             kind = 'select'
         elif r < 0.76:
             text, ordered, alias = self.setop()
